@@ -4,7 +4,13 @@ the real SeqNum / BitField / ConnectionBase._handle_ack_bits / Packet.setMTU).
 Oracle: the property restated over the implementation only (independent of the model).
 conn_level / conn_level_messages: the header-ack clause and the message-window clause on real endpoint pairs
 (every message type, retransmitted fragmented messages under lost acks); their endpoint histories are also replayed
-on the Conn.v model (unit conn_run_seq, through harness/props/C04.py Stream.finish)."""
+on the Conn.v model (unit conn_run_seq, through harness/props/C04.py Stream.finish).
+conn_level_gaps: the comparison clause ("right for any two numbers less than half the range apart") at connection level
+— LONG ONE-WAY BLACKOUTS: between two consecutive ARRIVALS the sender's datagram counter advances by 34 .. 32766 (all
+those datagrams are lost), then the next datagram arrives, then a copy of it, then a held-back one from before the
+blackout.  Oracle: a genuine datagram never seen before and less than half the ring away from the newest one seen — ahead
+or behind — is ACCEPTED, its new messages reach the application, and the receiver's next header names it; copies are
+dropped whole (Stream.deliver's clauses); the receiver's history is replayed on the Conn.v model."""
 import itertools
 from harness import lib
 
@@ -213,6 +219,7 @@ def run(run):
     oracle(run)
     conn_level(run)
     conn_level_messages(run)
+    conn_level_gaps(run)
 
 
 def conn_level(run):
@@ -287,6 +294,173 @@ def conn_level(run):
             finally:
                 st.finish()
     run.count("conn_level_sessions", nsess)
+    logging.disable(logging.NOTSET)
+
+
+def header_names_accepted(run, st, accepted, before, ctx):
+    """every header the receiver emitted since `before` names exactly the accepted datagrams among the newest 32
+    (same statement as in conn_level)"""
+    for rec in st.net.emitted[st.receiver][before:]:
+        ack, bits = rec["hdr"][3], rec["hdr"][7]
+        run.evaluations += 1
+        if not accepted:
+            named, expect = (set() if ack == 0 else {"?"}), set()
+        else:
+            newest = max(accepted)
+            expect = {n for n in accepted if newest - n <= 32}
+            named = set()
+            if ack == wire(newest):
+                named.add(newest)
+                for d in range(1, 33):
+                    if bits & (0x80000000 >> (d - 1)):
+                        named.add(newest - d)
+            else:
+                named = {"ack=%d" % ack}
+        if named != expect:
+            run.oracle_violation("header-acks-name-a-datagram-that-was-not-accepted-or-miss-one",
+                                 dict(ctx, ack=ack, ack_bits=bits, named_not_accepted=sorted(str(x) for x in named - expect)[:8],
+                                      accepted_not_named=sorted(expect - (named if "?" not in named else set()))[:8]),
+                                 "ConnectionBase._recv_datagram / _build_packet_impl")
+            return False
+    return True
+
+
+def conn_level_gaps(run):
+    """long one-way blackouts (see the module docstring)"""
+    import logging
+    from harness.props import C04 as P4
+    from harness import connsim as S
+    logging.disable(logging.CRITICAL)
+    rng = run.rng
+    site = "ConnectionBase._recv_datagram"
+
+    class GapStream(P4.Stream):
+        def blackout(self, n, dt=15):
+            """the sender emits n datagrams, one per update (keep-alives: its send and keep-alive intervals were set to 0),
+            and every one of them is lost.  Only the sender is stepped (directly, not through the logged endpoint: its own
+            history is not replayed on the model in these streams); when the sender is the client the receiver is ticked
+            now and then and its keep-alives DO arrive (one-way blackout: the client would give up after 5 s of silence)."""
+            ep = self.net.ep(self.sender)
+            em = self.net.emitted[self.sender]
+            for i in range(n):
+                self.net.advance(dt)
+                outs, _ = ep.impl.apply(("ctick", self.net.t, None) if self.sender == "client" else ("stick", self.net.t))
+                raws = list(ep.impl.last_sent)
+                if len(raws) != 1 or any(o[0] == 3 for o in outs):
+                    raise RuntimeError("blackout: sender update %d emitted %d datagrams / raised: harness not exercising the surface" % (i, len(raws)))
+                em.append({"hdr": S.unpack_header(raws[0]), "sealed": 7, "payload": b"", "time": self.net.t, "raw": raws[0], "lost": True})
+                self.msg_of[len(em) - 1] = []
+                if em[-1]["hdr"][2] != wire(self.true_n(len(em) - 1)):
+                    raise RuntimeError("blackout: datagram numbering of the harness is off")
+                if self.sender == "client" and i % 3000 == 2999:
+                    self.tick_receiver()
+            self.fwd_seen = len(em)
+
+        def finish(self):
+            try:
+                e = self.net.ep(self.receiver)
+                d = P4.check_model_seq(self.run, e, self.net.env, (0, 0))
+                self.run.compare("conn_run_seq", [("receiver", self.label, e.role)], [None], [d])
+                r = self.run.model.call_many("w_flags", [[32, self.gp.history]])
+                self.run.compare("w_flags", [("datagrams", self.label, len(self.gp.history))],
+                                 [[1 if x else 0 for x in self.impl_drop]], [r[0][0]])
+            finally:
+                self.net.close()
+
+    def arrive(st, idx, why, accepted, ctx):
+        """one copy of datagram idx reaches the receiver; a genuine datagram that was never seen and is less than half the
+        ring away from the newest seen must be accepted, and the new application messages it carries handed over"""
+        n = st.true_n(idx)
+        gap = st.gp.gap(n)
+        fresh = n not in st.gp.seen
+        new_app = [p for (j, ty, p) in st.msg_of[idx] if ty == 6 and j not in st.gm.seen]
+        had = {p: st.count.get(p, 0) for p in new_app}
+        acc = st.deliver(idx, why)
+        run.evaluations += 1
+        if acc:
+            accepted.add(n)
+        if fresh and (gap is None or abs(gap) < HALF):
+            c = dict(ctx, datagram_index=n, copy=why, newest_seen_minus_this=gap, wire_seq=wire(n))
+            if not acc:
+                run.oracle_violation("genuine-new-datagram-within-half-the-ring-refused", c, site)
+                return False
+            lost = [len(p) for p in new_app if st.count.get(p, 0) != had[p] + 1]
+            if lost:
+                run.oracle_violation("messages-of-accepted-datagram-not-handed-over", dict(c, lengths=lost), site)
+                return False
+            if gap is not None and abs(gap) > 32:
+                run.nt(("gap", st.sender, st.start, gap))
+        return True
+
+    def session(sender, start, G):
+        st = GapStream(run, rng, sender, start[0], start[1], "C08 blackout gap %d" % G)
+        ctx = {"direction": "%s->%s" % (st.sender, st.receiver), "start": list(start), "gap": G, "scenario": "one-way blackout"}
+        accepted = set()
+        ok = True
+
+        def hdrs():
+            before = len(st.net.emitted[st.receiver])
+            st.tick_receiver()
+            return header_names_accepted(run, st, accepted, before, ctx)
+        try:
+            # before the blackout: some traffic; one datagram is held back
+            held = None
+            for step in range(rng.randrange(3, 7)):
+                st.advance()
+                for _ in range(rng.randrange(1, 3)):
+                    st.app_send(rng.choice([9, 12, 40]), rng.choice([0, 1]))
+                for idx in st.tick_sender():
+                    if held is None and step >= 1:
+                        held = idx
+                        continue
+                    ok = ok and arrive(st, idx, "first", accepted, ctx)
+                ok = ok and hdrs()
+            if not ok:
+                return False
+            newest_idx = max(i for i in range(len(st.net.emitted[sender])) if st.true_n(i) in accepted)
+            emitted_now = len(st.net.emitted[sender])
+            sep = st.net.ep(sender)
+            sep.apply(("cfg", 3, 0))            # send interval 0, keep-alive interval 0: one datagram per update
+            sep.apply(("cfg", 0, 0))
+            # the datagram that arrives next is G ahead of the newest one seen: everything in between is lost
+            st.blackout(G - 1 - (emitted_now - 1 - newest_idx))
+            st.advance(15)
+            for _ in range(2):
+                st.app_send(rng.choice([9, 12, 40]), rng.choice([0, 1]))
+            new = st.tick_sender()
+            if len(new) != 1 or st.true_n(new[0]) - st.true_n(newest_idx) != G:
+                raise RuntimeError("blackout: arrival is not %d ahead of the newest seen: harness broken" % G)
+            ok = arrive(st, new[0], "first after the blackout", accepted, ctx) and hdrs()
+            if ok:
+                st.deliver(new[0], "duplicate")                    # (Stream.deliver: a copy inside the window is dropped whole)
+                ok = hdrs()
+            if ok and held is not None and G + 40 < HALF:
+                # the datagram held back since before the blackout arrives now: never seen, far behind, within half the ring
+                ok = arrive(st, held, "late, from before the blackout", accepted, ctx) and hdrs()
+            for step in range(3):
+                if not ok:
+                    break
+                st.advance(300)
+                st.app_send(rng.choice([9, 12]), 0)
+                for idx in st.tick_sender():
+                    ok = ok and arrive(st, idx, "first", accepted, ctx)
+                ok = ok and hdrs()
+            return ok
+        finally:
+            st.finish()
+
+    starts = [(0, 0), (RING - 20, RING - 200), (RING - 1, RING - 1), (40000, 100), (RING - 9000, 7)]
+    gaps = [34, 301, 5001, 8192, 8193, 8194, 9001, 20001, 32001, HALF - 1]
+    plan = [("client", G) for G in gaps] + [("server", G) for G in (34, 301, 4001)]
+    if run.thorough():
+        plan += [("client", rng.randrange(33, HALF)) for _ in range(12)] + [("server", rng.randrange(33, 4500)) for _ in range(6)]
+    n = 0
+    for sender, G in plan:
+        # (receiver = client: the client gives up after 5 s without a datagram, so the blackout it can survive is short)
+        if not session(sender, rng.choice(starts), G):
+            break
+        n += 1
+    run.count("blackout_sessions", n)
     logging.disable(logging.NOTSET)
 
 
